@@ -204,17 +204,23 @@ Fixpoint parse_dims (ds : list str) : res row :=
               end
   end.
 
+(* the non-timestamped case line: dimensions separated by ":", the class value last *)
+Definition case_core (cl : bool) (nd0 : option Z) (line : str) : res (Z * row * option str) :=
+  let dims := split_on ch_colon line in
+  let this_nd := len dims - (if cl then 1 else 0) in
+  let nd := match nd0 with Some n => n | None => this_nd end in
+  if negb (this_nd =? nd) then Err else
+  match parse_dims (firstn (Z.to_nat nd) dims) with
+  | Ok r => Ok (nd, r, if cl then Some (strip (nth_str (Z.to_nat nd) dims)) else None)
+  | Err => Err
+  end.
+
 Definition data_line (s : pstate) (line0 : str) : res pstate :=
   if negb (full_metadata s) then Err else
-  let line := replace_q line0 in
   match timestamps s, class_labels s with
   | Some false, Some cl =>
-      let dims := split_on ch_colon line in
-      let this_nd := len dims - (if cl then 1 else 0) in
-      let nd := match num_dims s with Some n => n | None => this_nd end in
-      if negb (this_nd =? nd) then Err else
-      match parse_dims (firstn (Z.to_nat nd) dims) with
-      | Ok r => Ok (add_row nd r (if cl then Some (strip (nth_str (Z.to_nat nd) dims)) else None) s)
+      match case_core cl (num_dims s) (replace_q line0) with
+      | Ok (nd, r, lab) => Ok (add_row nd r lab s)
       | Err => Err
       end
   | _, _ => Err   (* the timestamped branch is outside the property's quantifier: not modelled *)
